@@ -495,4 +495,156 @@ theorem verify_p2pkh (c : Ctx) (fl : Flags) (body : Bytes) (ht : UInt8) (key : B
   · simp [checkTopTrue_one, verifyCleanStack_one fl _ hfl, bind, Except.bind]
 
 
+/-! ### P2SH wrapping -/
+
+/-- `OP_HASH160 <h> OP_EQUAL` -/
+def p2shScript (h : Bytes) : Bytes := [0xa9] ++ pushData h ++ [0x87]
+
+theorem rawIter_p2sh (h : Bytes) (hh : h.length < 0x4c) :
+    rawIter (p2shScript h) = ([⟨0xa9, none, 0⟩, ⟨h.length, some h, 1⟩, ⟨0x87, none, h.length + 2⟩], none) := by
+  unfold rawIter p2shScript
+  simp only [List.cons_append, List.nil_append]
+  rw [rawIterFrom_opcode _ 0xa9 _ (by decide), rawIterFrom_push _ h _ hh, rawIterFrom_opcode _ 0x87 _ (by decide),
+    rawIterFrom_nil]
+  simp
+  omega
+
+theorem isP2sh_p2sh (h : Bytes) (hh : h.length = 20) : isP2sh (p2shScript h) = true := by
+  unfold isP2sh p2shScript pushData
+  have e22 : ([0xa9] ++ UInt8.ofNat h.length :: h ++ [0x87])[22]? = some 0x87 := by
+    simp [hh]
+  rw [e22]
+  simp [hh]
+
+theorem opEqual_eval (x y : Bytes) (rest alt : List Bytes) (pb nops : Nat) :
+    opEqual 0x87 ⟨x :: y :: rest, alt, [], pb, nops⟩ =
+      .ok ⟨(if x = y then [1] else []) :: rest, alt, [], pb, nops⟩ := by
+  have h : ¬ rest.length + 1 + 1 < 2 := by omega
+  simp [opEqual, checkArgs, pop?, pyIdx, bind, Except.bind, h]
+
+/-- the P2SH scriptPubKey on a stack whose top is the serialised script with the committed hash -/
+theorem evalScript_p2sh (c : Ctx) (fl : Flags) (redeem : Bytes) (rest : List Bytes)
+    (hhl : (c.env.hashes.hash160 redeem).length = 20) (hsz : rest.length + 2 ≤ 1000) :
+    evalScript c fl (redeem :: rest) (p2shScript (c.env.hashes.hash160 redeem)) = .ok ([1] :: rest) := by
+  generalize hh : c.env.hashes.hash160 redeem = h at *
+  have hh4 : h.length < 0x4c := by omega
+  have hl : (p2shScript h).length ≤ 10000 := by simp [p2shScript, pushData]; omega
+  have e := evalScript_of_loop c fl (redeem :: rest) (p2shScript h) _ ⟨[1] :: rest, [], [], 0, 2⟩ hl
+    (rawIter_p2sh h hh4) ?_ rfl
+  · exact e
+  · rw [loop_cons _ _ _ _ _ _ ⟨h :: rest, [], [], 0, 1⟩
+      (step_opcode c fl _ 0xa9 0 _ _ 0 0 _ (by omega) (by decide) (by omega)
+        (by rw [execOp_hash160, hashTop_eval, hh]) (by simp; omega))]
+    rw [loop_cons _ _ _ _ _ _ _ (step_push c fl _ h.length 1 h (h :: rest) [] 0 1 hh4 (by omega) (by simp; omega))]
+    rw [loop_cons _ _ _ _ _ _ ⟨[1] :: rest, [], [], 0, 2⟩, loop_nil]
+    apply step_opcode
+    · omega
+    · decide
+    · omega
+    · rw [execOp_equal, opEqual_eval]; simp
+    · simp; omega
+
+theorem isPushOnly_of (s : Bytes) (ops : List RawOp) (hit : rawIter s = (ops, none))
+    (h : ∀ o ∈ ops, o.opcode ≤ 0x60) : isPushOnly s = true := by
+  unfold isPushOnly
+  simp only [hit, Option.isNone_none]
+  have : ops.any (fun o => decide (o.opcode > 0x60)) = false := by
+    rw [List.any_eq_false]
+    intro o ho
+    have := h o ho
+    simp; omega
+  rw [this]; rfl
+
+/-- the P2SH branch of VerifyScript -/
+theorem verifyScript_p2sh (c : Ctx) (fl : Flags) (scriptSig redeem : Bytes) (rest s2 : List Bytes)
+    (hp : fl.p2sh = true) (hpo : isPushOnly scriptSig = true)
+    (hhl : (c.env.hashes.hash160 redeem).length = 20) (hsz : rest.length + 2 ≤ 1000)
+    (h1 : evalScript c fl [] scriptSig = .ok (redeem :: rest))
+    (h2 : evalScript c fl rest redeem = .ok s2) :
+    verifyScript c fl scriptSig (p2shScript (c.env.hashes.hash160 redeem)) =
+      (do checkTopTrue s2; verifyCleanStack fl s2) := by
+  unfold verifyScript
+  simp only [h1, evalScript_p2sh c fl redeem rest hhl hsz, bind, Except.bind, hp, if_true, checkTopTrue_one,
+    isP2sh_p2sh _ hhl, and_self, verifyP2sh, hpo, Bool.not_true, Bool.false_eq_true, if_false,
+    List.length_cons, pop?, pyIdx, h2]
+  simp only [Nat.add_one_ne_zero, if_false]
+  cases checkTopTrue s2 <;> rfl
+
+
+
+theorem rawIter_push2 (d1 d2 : Bytes) (h1 : d1.length < 0x4c) (h2 : d2.length < 0x4c) :
+    rawIter (pushData d1 ++ pushData d2) =
+      ([⟨d1.length, some d1, 0⟩, ⟨d2.length, some d2, d1.length + 1⟩], none) := by
+  unfold rawIter
+  have := rawIterFrom_push (0 + (d1.length + 1)) d2 [] h2
+  rw [List.append_nil] at this
+  rw [rawIterFrom_push 0 d1 _ h1, this, rawIterFrom_nil]
+  simp
+
+theorem rawIter_push3 (d1 d2 d3 : Bytes) (h1 : d1.length < 0x4c) (h2 : d2.length < 0x4c) (h3 : d3.length < 0x4c) :
+    rawIter (pushData d1 ++ pushData d2 ++ pushData d3) =
+      ([⟨d1.length, some d1, 0⟩, ⟨d2.length, some d2, d1.length + 1⟩,
+        ⟨d3.length, some d3, d1.length + 1 + (d2.length + 1)⟩], none) := by
+  unfold rawIter
+  have := rawIterFrom_push (0 + (d1.length + 1) + (d2.length + 1)) d3 [] h3
+  rw [List.append_nil] at this
+  rw [List.append_assoc, rawIterFrom_push 0 d1 _ h1, rawIterFrom_push _ d2 _ h2, this, rawIterFrom_nil]
+  simp
+
+theorem evalScript_push3 (c : Ctx) (fl : Flags) (d1 d2 d3 : Bytes) (h1 : d1.length < 0x4c) (h2 : d2.length < 0x4c)
+    (h3 : d3.length < 0x4c) :
+    evalScript c fl [] (pushData d1 ++ pushData d2 ++ pushData d3) = .ok [d3, d2, d1] := by
+  have hl : (pushData d1 ++ pushData d2 ++ pushData d3).length ≤ 10000 := by simp [pushData]; omega
+  exact evalScript_of_loop c fl [] _ _ ⟨[d3, d2, d1], [], [], 0, 0⟩ hl (rawIter_push3 d1 d2 d3 h1 h2 h3)
+    (by rw [loop_cons _ _ _ _ _ _ _ (step_push c fl _ d1.length 0 d1 [] [] 0 0 h1 (by omega) (by simp)),
+          loop_cons _ _ _ _ _ _ _ (step_push c fl _ d2.length _ d2 [d1] [] 0 0 h2 (by omega) (by simp)),
+          loop_cons _ _ _ _ _ _ _ (step_push c fl _ d3.length _ d3 [d2, d1] [] 0 0 h3 (by omega) (by simp)),
+          loop_nil]) rfl
+
+/-- P2SH-wrapped pay-to-pubkey-hash -/
+theorem verify_p2sh_p2pkh (c : Ctx) (fl : Flags) (body : Bytes) (ht : UInt8) (key : Bytes)
+    (hfl : fl.admissible = true) (hp : fl.p2sh = true) (hidx : 0 ≤ c.inIdx) (hk : key.length < 0x4c)
+    (hs : body.length + 1 < 0x4c) (hhl : ∀ x, (c.env.hashes.hash160 x).length = 20) (hne : body.length + 1 ≠ 20) :
+    let redeem := p2pkhScript (c.env.hashes.hash160 key)
+    verifyScript c fl (pushData (body ++ [ht]) ++ pushData key ++ pushData redeem)
+        (p2shScript (c.env.hashes.hash160 redeem)) =
+      if c.env.sigCheck body key redeem ht.toNat then .ok () else .error .verify := by
+  intro redeem
+  have hsl : (body ++ [ht]).length < 0x4c := by simpa using hs
+  have hrl : redeem.length < 0x4c := by
+    simp [redeem, p2pkhScript, pushData, hhl key]
+  have hpo : isPushOnly (pushData (body ++ [ht]) ++ pushData key ++ pushData redeem) = true := by
+    apply isPushOnly_of _ _ (rawIter_push3 _ _ _ hsl hk hrl)
+    intro o ho
+    simp only [List.mem_cons, List.not_mem_nil, or_false] at ho
+    rcases ho with rfl | rfl | rfl <;> simp only <;> omega
+  rw [verifyScript_p2sh c fl _ redeem [key, body ++ [ht]] _ hp hpo (hhl redeem) (by simp)
+    (evalScript_push3 c fl _ _ _ hsl hk hrl) (evalScript_p2pkh c fl body ht key hidx hk hs (hhl key) hne)]
+  cases c.env.sigCheck body key redeem ht.toNat
+  · simp [checkTopTrue_empty, bind, Except.bind]
+  · simp [checkTopTrue_one, verifyCleanStack_one fl _ hfl, bind, Except.bind]
+
+/-- P2SH-wrapped pay-to-pubkey -/
+theorem verify_p2sh_p2pk (c : Ctx) (fl : Flags) (body : Bytes) (ht : UInt8) (key : Bytes)
+    (hfl : fl.admissible = true) (hp : fl.p2sh = true) (hidx : 0 ≤ c.inIdx) (hk : key.length + 2 < 0x4c)
+    (hs : body.length + 1 < 0x4c) (hhl : ∀ x, (c.env.hashes.hash160 x).length = 20)
+    (hne : body.length + 1 ≠ key.length) :
+    verifyScript c fl (pushData (body ++ [ht]) ++ pushData (p2pkScript key))
+        (p2shScript (c.env.hashes.hash160 (p2pkScript key))) =
+      if c.env.sigCheck body key (p2pkScript key) ht.toNat then .ok () else .error .verify := by
+  have hsl : (body ++ [ht]).length < 0x4c := by simpa using hs
+  have hrl : (p2pkScript key).length < 0x4c := by
+    simp [p2pkScript, pushData]; omega
+  have hpo : isPushOnly (pushData (body ++ [ht]) ++ pushData (p2pkScript key)) = true := by
+    apply isPushOnly_of _ _ (rawIter_push2 _ _ hsl hrl)
+    intro o ho
+    simp only [List.mem_cons, List.not_mem_nil, or_false] at ho
+    rcases ho with rfl | rfl <;> simp only <;> omega
+  rw [verifyScript_p2sh c fl _ (p2pkScript key) [body ++ [ht]] _ hp hpo (hhl _) (by simp)
+    (evalScript_push2 c fl _ _ hsl hrl) (evalScript_p2pk c fl body ht key hidx (by omega) hs hne)]
+  cases c.env.sigCheck body key (p2pkScript key) ht.toNat
+  · simp [checkTopTrue_empty, bind, Except.bind]
+  · simp [checkTopTrue_one, verifyCleanStack_one fl _ hfl, bind, Except.bind]
+
+
 end BtcVerif.C05T
